@@ -129,6 +129,10 @@ mod raw {
 
             let mut stdout_ref = self.stdout.as_ref();
             let mut stderr_ref = self.stderr.as_ref();
+            // Set once the deadline is seen to have passed.  The iteration
+            // that notices it still polls and transfers what is ready, the
+            // next one reports the timeout - even if data keeps arriving.
+            let mut expired = false;
 
             loop {
                 if let Some(size_limit) = size_limit {
@@ -141,6 +145,11 @@ mod raw {
                     // When no stream remains, we are done.
                     break;
                 }
+
+                if expired {
+                    return Err(io::Error::new(io::ErrorKind::TimedOut, "timeout"));
+                }
+                expired = deadline.map_or(false, |deadline| Instant::now() >= deadline);
 
                 let (in_ready, out_ready, err_ready) =
                     maybe_poll(self.stdin.as_ref(), stdout_ref, stderr_ref, deadline)?;
